@@ -1158,3 +1158,9 @@ FINDING_PREDICATES = {
         and _k(v).get('block') == 'experiment_info/expdata')
     or (v['kind'] == 'reader_shape' and _k(v).get('field') in ('en', 'efix') and _k(v).get('emode') == 'indirect'),
 }
+
+
+# strict-caller variant shard of the runner (numpy floating-point events raise while package code runs): on the
+# unchanged tree the float32 cast of pixel values beyond / below the float32 range overflows / underflows (the stored value is the IEEE result);
+# these benign events are therefore not trapped for this property
+STRICT_NUMPY = {'under': 'ignore', 'over': 'ignore'}
